@@ -61,6 +61,9 @@ type Scenario struct {
 	Cap    int                `json:"cap"`
 	CbFail int                `json:"cbfail"`
 	Decs   []fakereg.Decision `json:"decs"`
+	// the registry's continuation: "" = the `last` parameter, else an opaque cursor under this key
+	CursorKey  string `json:"cursorkey"`
+	CursorSalt string `json:"cursorsalt"`
 	// Repository.Referrers around the two paths (op "wrap"; Kind R)
 	State    string `json:"state"`    // capability before the call: "U" unknown, "S" supported ("" too), "N" unsupported
 	NoAPI    bool   `json:"noapi"`    // the registry has no referrers API (404)
@@ -223,6 +226,7 @@ var finalState int // capability state after the last execute of a referrers sce
 func execute(sc *Scenario) (reg *fakereg.Registry, pages [][]fakereg.Item, logAtFail int, err error) {
 	reg = fakereg.New(host)
 	reg.NoReferrersAPI = sc.NoAPI
+	reg.CursorKey, reg.CursorSalt = sc.CursorKey, sc.CursorSalt
 	if sc.Index {
 		reg.Manifests[sc.Repo+"@"+subject.Algorithm().String()+"-"+subject.Encoded()] = fakereg.Manifest{MediaType: ocispec.MediaTypeImageIndex, Content: indexDoc(sc.Items, 0)}
 	}
@@ -343,7 +347,7 @@ func clientTokens(log []*fakereg.Exchange) (reqs, resp []string) {
 		tt, tp, tq := "!", "_", "_"
 		switch {
 		case x.HasLink && x.Dec.PreFirst != 0: // the first link-value is the rel="first" link
-			tt, tp, tq = common.Hex(x.PreText), common.Hex(x.TPath), kvsTok(x.PreQuery)
+			tt, tp, tq = common.Hex(x.PreText), common.Hex(x.Path), kvsTok(x.PreQuery)
 		case x.HasLink:
 			tt, tp, tq = common.Hex(x.Text), common.Hex(x.TPath), kvsTok(x.TQuery)
 		default:
@@ -380,7 +384,7 @@ func followedRelFirst(log []*fakereg.Exchange, n int) bool {
 		if n > 0 {
 			want["n"] = []string{strconv.Itoa(n)}
 		}
-		if log[i+1].Path == x.TPath && obsQuery(valuesKVs(log[i+1].Query)) == obsQuery(valuesKVs(want)) {
+		if log[i+1].Path == x.Path && obsQuery(valuesKVs(log[i+1].Query)) == obsQuery(valuesKVs(want)) {
 			return true
 		}
 	}
@@ -566,32 +570,38 @@ func listCase(sc *Scenario) {
 		if i > 2 && !run.Rand.Chance(1, 3) {
 			continue
 		}
-		regPageCase(sc.Kind, sc.Items, reg.Cap, x)
+		regPageCase(sc.Kind, sc.Items, reg.Cap, sc.CursorKey, sc.CursorSalt, x)
 	}
 }
 
 // RegPage is the replay form of one registry-model case (one request to the fake registry).
 type RegPage struct {
-	Op    string           `json:"op"` // "regpage"
-	Kind  string           `json:"kind"`
-	Items []fakereg.Item   `json:"items"`
-	Cap   int              `json:"cap"`
-	Path  string           `json:"path"`
-	Query []fakereg.KV     `json:"query"`
-	Dec   fakereg.Decision `json:"dec"`
+	Op         string           `json:"op"` // "regpage"
+	Kind       string           `json:"kind"`
+	Items      []fakereg.Item   `json:"items"`
+	Cap        int              `json:"cap"`
+	Path       string           `json:"path"`
+	Query      []fakereg.KV     `json:"query"`
+	Dec        fakereg.Decision `json:"dec"`
+	CursorKey  string           `json:"cursorkey"`
+	CursorSalt string           `json:"cursorsalt"`
 }
 
 // regPageCase compares one answer of the fake registry with the registry model (S line) and
 // judges it against the conditions of a legal registry, independently of the model.
-func regPageCase(kind string, items []fakereg.Item, cap int, x *fakereg.Exchange) {
+func regPageCase(kind string, items []fakereg.Item, cap int, ck, salt string, x *fakereg.Exchange) {
 	sid := run.NewID()
 	d := x.Dec
 	flt := "0"
 	if d.Filter {
 		flt = "1"
 	}
-	in := fmt.Sprintf("S %s %s %d %s %s %d %s %s %s %s", kind, itemsTok(items), cap, common.Hex(x.Path), kvsTok(valuesKVs(x.Query)),
-		d.M, kvsTok(d.Extra), flt, common.Hex(d.FHdr), common.Hex(d.FAnn))
+	extra := append([]fakereg.KV(nil), d.Extra...)
+	for _, raw := range d.RawPairs {
+		extra = append(extra, valuesKVs(fakereg.ParseQueryLenient(raw))...)
+	}
+	in := fmt.Sprintf("S %s %s %d %s %s %d %s %s %s %s %s %s", kind, itemsTok(items), cap, common.Hex(x.Path), kvsTok(valuesKVs(x.Query)),
+		d.M, kvsTok(extra), flt, common.Hex(d.FHdr), common.Hex(d.FAnn), common.Hex(ck), common.Hex(salt))
 	more, lq := 0, "_"
 	if x.More {
 		more, lq = 1, obsQuery(canonKVs(x.TQuery))
@@ -600,11 +610,20 @@ func regPageCase(kind string, items []fakereg.Item, cap int, x *fakereg.Exchange
 	run.Count("registry_page")
 
 	// legality of the answer (ground truth: the item list and the request)
-	rep := RegPage{Op: "regpage", Kind: kind, Items: items, Cap: cap, Path: x.Path, Query: valuesKVs(x.Query), Dec: fakereg.Decision{M: d.M, Extra: d.Extra, Filter: d.Filter, FHdr: d.FHdr, FAnn: d.FAnn}}
+	rep := RegPage{Op: "regpage", Kind: kind, Items: items, Cap: cap, Path: x.Path, Query: valuesKVs(x.Query), CursorKey: ck, CursorSalt: salt,
+		Dec: fakereg.Decision{M: d.M, Extra: extra, Filter: d.Filter, FHdr: d.FHdr, FAnn: d.FAnn}}
 	bad := func(msg string) {
 		run.OracleFail(sid, "fake-registry-illegal", fmt.Sprintf("fake registry, request %s?%s: %s", x.Path, x.Query.Encode(), msg), rep)
 	}
-	rest := fakereg.After(items, x.Query.Get("last"))
+	cur := x.Query.Get("last")
+	key := "last"
+	if ck != "" && ck != "last" {
+		key = ck
+		if x.Query.Has(ck) {
+			cur = strings.TrimPrefix(x.Query.Get(ck), salt)
+		}
+	}
+	rest := fakereg.After(items, cur)
 	lim := cap
 	if n, err := strconv.Atoi(x.Query.Get("n")); err == nil && n > 0 && n < lim {
 		lim = n
@@ -621,10 +640,13 @@ func regPageCase(kind string, items []fakereg.Item, cap int, x *fakereg.Exchange
 		bad(fmt.Sprintf("link present = %v, items remaining = %d", x.More, len(rest)-len(u)))
 	}
 	if x.More {
-		last := ""
+		last, seen := "", false
 		for _, kv := range x.TQuery {
-			if kv.K == "last" && last == "" {
-				last = kv.V
+			if kv.K == key && !seen {
+				last, seen = kv.V, true
+				if key != "last" {
+					last = strings.TrimPrefix(last, salt)
+				}
 			}
 		}
 		if len(u) == 0 || last != u[len(u)-1].Name {
@@ -646,17 +668,19 @@ func regPageReplay(rp *RegPage) {
 		reg.Cap = 1
 	}
 	reg.Decide = func(*fakereg.Exchange) fakereg.Decision { return rp.Dec }
+	reg.CursorKey, reg.CursorSalt = rp.CursorKey, rp.CursorSalt
 	switch rp.Kind {
 	case "K":
 		reg.Repos = rp.Items
 	case "T":
-		reg.Tags[strings.TrimSuffix(strings.TrimPrefix(rp.Path, "/v2/"), "/tags/list")] = rp.Items
+		reg.Tags[strings.TrimSuffix(strings.TrimPrefix(strings.TrimSuffix(rp.Path, "/~p"), "/v2/"), "/tags/list")] = rp.Items
 	default:
-		i := strings.LastIndex(rp.Path, "/referrers/")
+		pth := strings.TrimSuffix(rp.Path, "/~p")
+		i := strings.LastIndex(pth, "/referrers/")
 		if i < 0 {
 			return
 		}
-		reg.Referrers[rp.Path[len("/v2/"):i]+"@"+rp.Path[i+len("/referrers/"):]] = rp.Items
+		reg.Referrers[pth[len("/v2/"):i]+"@"+pth[i+len("/referrers/"):]] = rp.Items
 	}
 	q := url.Values{}
 	for _, kv := range rp.Query {
@@ -669,7 +693,7 @@ func regPageReplay(rp *RegPage) {
 	}
 	resp.Body.Close()
 	if reg.Log[0].Status == 200 {
-		regPageCase(rp.Kind, rp.Items, reg.Cap, reg.Log[0])
+		regPageCase(rp.Kind, rp.Items, reg.Cap, rp.CursorKey, rp.CursorSalt, reg.Log[0])
 	}
 }
 
@@ -791,6 +815,14 @@ func genDecision(r *common.Rand, sc *Scenario) fakereg.Decision {
 	if r.Chance(1, 4) {
 		d.Pad = 1 + r.Intn(4)
 	}
+	// raw sub-delimiters / malformed escapes in the link query (legal URL text that url.ParseQuery rejects)
+	if r.Chance(1, 8) {
+		d.RawPairs = []string{common.Pick(r, []string{"tok=a;b", "t=%zz", "sig=x;y;z", "k;1=v", "u=100%"})}
+	}
+	// the next page under another path
+	if r.Chance(1, 8) {
+		d.AltPath = true
+	}
 	// further link-values and Link lines after the next link (RFC 8288)
 	if r.Chance(1, 6) {
 		d.PostSame = []string{common.Pick(r, []string{`<http://reg.test/v2/>; rel="first"`, `</other>; rel="prev"`, `<x>`})}
@@ -825,6 +857,12 @@ func genScenario(r *common.Rand, maxItems int) *Scenario {
 		default:
 			sc.Last = genName(r, sc.Kind)
 		}
+	}
+	// the registry's continuation: mostly `last`, else an opaque cursor (the link carries no `last`)
+	if r.Chance(1, 4) {
+		sc.CursorKey = common.Pick(r, []string{"token", "next", "cursor"})
+		sc.CursorSalt = common.Pick(r, []string{"", "p;", "x:", "a=b;", "~"})
+		run.Count("cursor_opaque")
 	}
 	for i := 0; i < len(sc.Items)+2; i++ {
 		sc.Decs = append(sc.Decs, genDecision(r, sc))
@@ -1602,7 +1640,7 @@ func replay(cases []map[string]string) {
 			raw := map[string]json.RawMessage{}
 			for k, v := range c {
 				switch k {
-				case "op", "kind", "repo", "last", "at", "state":
+				case "op", "kind", "repo", "last", "at", "state", "cursorkey", "cursorsalt":
 					b, _ := json.Marshal(v)
 					raw[k] = b
 				default:
@@ -1639,7 +1677,7 @@ func replay(cases []map[string]string) {
 			raw := map[string]json.RawMessage{}
 			for k, v := range c {
 				switch k {
-				case "op", "kind", "path":
+				case "op", "kind", "path", "cursorkey", "cursorsalt":
 					b, _ := json.Marshal(v)
 					raw[k] = b
 				default:
@@ -1656,7 +1694,7 @@ func replay(cases []map[string]string) {
 			raw := map[string]json.RawMessage{}
 			for k, v := range c {
 				switch k {
-				case "op", "kind", "repo", "last", "at", "state":
+				case "op", "kind", "repo", "last", "at", "state", "cursorkey", "cursorsalt":
 					b, _ := json.Marshal(v)
 					raw[k] = b
 				default:
